@@ -516,7 +516,8 @@ func Run(p *Plan) int {
 			os.MkdirAll(rp, 0o755)
 			name := fmt.Sprintf("%s-%s-%d.json", p.Property, sanitize(m.Class), violations)
 			path := filepath.Join(rp, name)
-			b, _ := json.MarshalIndent(map[string]any{"property": p.Property, "class": m.Class, "eval_module": p.EvalMod, "case": c, "record": m.Rec}, "", " ")
+			si, _ := m.Rec["stage"].(int)
+			b, _ := json.MarshalIndent(map[string]any{"property": p.Property, "class": m.Class, "eval_module": stages[si].EvalMod, "eval_env": stages[si].EvalEnv, "isolated": p.Isolated, "case": c, "record": m.Rec}, "", " ")
 			os.WriteFile(path, b, 0o644)
 			fmt.Printf("VIOLATION property=%s replay=%s\n", p.Property, path)
 			logf("  class=%s sig=%s", m.Class, canon(m.Rec["sig"]))
